@@ -302,6 +302,48 @@ def gen_history(rng, kind, size):
     return sim.flat()
 
 
+def gen_deep(rng):
+    """a chain deeper than 64 levels and multi-name paths whose segment count is 65..95"""
+    sim = Sim()
+    sim.create(SCOPEBLOCK, 0, b'\\\0\0\0')
+    depth = rng.choice([66, 70, 80, 92, 97])
+    prev = 0
+    chain = [0]
+    for d in range(depth):
+        i = sim.create(rng.choice(KNOWN_OPS), 0, rng.choice(NAMES))
+        sim.append(prev, i)
+        if rng.random() < 0.2:
+            j = sim.create(SCOPEBLOCK, 0, rng.choice(NAMES))
+            if sim.name[j] != sim.name[i]:
+                sim.append(prev, j)
+        prev = i
+        chain.append(i)
+    for _ in range(rng.randrange(6, 16)):
+        start = rng.choice([0, 0, 0, 1, 2, rng.randrange(0, 20)])
+        n = rng.choice([2, 3, 10, 63, 64, 65, 66, 70, 0x5a, 0x5b, 0x5c, 0x5e, 0x5f, 0x60, rng.randrange(2, depth)])
+        n = min(n, depth - start)
+        if n < 2:
+            continue
+        segs = [sim.name[chain[start + k]] for k in range(1, n + 1)]
+        body = bytes([0x2f, n]) + b''.join(segs)
+        r = rng.random()
+        if r < 0.5:
+            scope, e = rng.choice(chain), (b'\\' + body if start == 0 else None)
+            if e is None:
+                scope, e = chain[start], body
+        elif r < 0.8:
+            scope, e = chain[start], body
+        else:
+            ups = rng.randrange(1, 4)
+            scope = chain[min(start + ups, depth)]
+            e = b'^' * (chain.index(scope) - start) + body
+        if rng.random() < 0.15:
+            e = e[:-rng.randrange(1, 4)]
+        sim.cmds.append([7, scope, len(e)] + list(e))
+    sim.cmds.append([6])
+    return sim.flat()
+
+
 def gen_illegal(rng, sim):
     """one edit outside the property's quantifier"""
     live = sim.live()
@@ -355,9 +397,12 @@ class C13(flow.Spec):
     partial = []
 
     def gen_cases(self, rng, tier):
-        n = {'quick': 700, 'thorough': 20000, 'search': 2500}[tier]
+        n = {'quick': 2500, 'thorough': 40000, 'search': 3000}[tier]
         out = []
-        for _ in range(n):
+        for k in range(n):
+            if k % 125 == 7:
+                out.append((gen_deep(rng), 'deep'))
+                continue
             r = rng.random()
             kind = 'edit' if r < 0.40 else 'find' if r < 0.82 else 'illegal'
             size = rng.choice([4, 8, 12, 20, 30, 45, 60]) if kind != 'find' else rng.choice([10, 20, 30, 40, 60])
